@@ -189,7 +189,20 @@ pub fn execute(plan: &Plan, entropy: u64) -> RunReport {
                         return rep;
                     }
                     if !held_version {
-                        rep.probe(if is_tracked { "unheld_version_of_held_record_tracked" } else { "unheld_version_of_held_record_not_tracked_yet" });
+                        if is_tracked {
+                            rep.probe("unheld_version_of_held_record_tracked");
+                        } else {
+                            // no range is set, the list is far shorter than the parallel-fetch limit, the holder is a
+                            // close peer: an advertised version the node does not hold is at least queued
+                            rep.violate(
+                                PROP,
+                                "liveness.unheld_version_of_held_record_not_tracked",
+                                &[("glue", "real_driver".into())],
+                                format!("a close neighbour advertises version {} of record {} (the node holds version {}): the fetcher neither queues nor fetches it", v, hex::encode(&keys[*i][..3]), version_held[*i]),
+                            );
+                            hooks::gates_uninstall();
+                            return rep;
+                        }
                     }
                 }
                 rep.probe("held_versions_advertised_nothing_fetched");
